@@ -21,7 +21,11 @@ def _is_ws_token_expr(e, fn_node):
     return False
 
 
-def site_inventory(rep):
+def site_inventory_residual(rep):
+    return site_inventory(rep, only=set(NOT_YET))
+
+
+def site_inventory(rep, only=None):
     """every tree-mutation site of the layout filters is one of: insertion of a fresh whitespace token; removal of an
     element under an is_whitespace guard; rewrite of .value to '' or ' ' under an is_whitespace guard.  (Syntactic
     inventory over the real AST: a NEW kind of site, or a site that lost its guard, fails here; that the removed
@@ -29,6 +33,8 @@ def site_inventory(rep):
     fns = effects.all_functions()
     for q, node in sorted(fns.items()):
         if not any(('.%s.' % c) in q for c in LAYOUT_CLASSES):
+            continue
+        if only is not None and q not in only:
             continue
         parents = {}
         for p in ast.walk(node):
@@ -95,12 +101,47 @@ def stack_mapping(rep):
                       undecided_if_false=True)
 
 
+O = 'sqlparse.filters.others.'
+RF = 'sqlparse.filters.reindent.ReindentFilter.'
+AF = 'sqlparse.filters.aligned_indent.AlignedIndentFilter.'
+SITE_FUNCS = [(O + 'StripWhitespaceFilter._stripws_default', None), (O + 'StripWhitespaceFilter._stripws_parenthesis', None),
+              (O + 'StripWhitespaceFilter._stripws_identifierlist', None), (O + 'SpacesAroundOperatorsFilter._process', None),
+              (RF + '_split_kwds', 'sites'), (RF + '_split_statements', 'sites'), (RF + '_process_where', 'sites'),
+              (RF + '_process_parenthesis', 'sites'), (RF + '_process_values', 'sites'), (RF + 'process', 'sites'),
+              (AF + '_split_kwds', 'sites'), (AF + '_process_parenthesis', 'sites')]
+NOT_YET = [RF + '_process_identifierlist', RF + '_process_case', RF + '_process_function', RF + '_process_default',
+           AF + '_process_statement', AF + '_process_identifierlist', AF + '_process_case', AF + '_process_default',
+           O + 'StripWhitespaceFilter.process', O + 'StripWhitespaceFilter._stripws']
+
+
+def pure_helpers(rep):
+    """helpers that the site proofs use through a frame-only call-site model contain no tree write"""
+    fns = effects.all_functions()
+    for q in (RF + '_next_token', AF + '_next_token', RF + '_get_offset', RF + '_flatten_up_to_token', RF + 'nl', AF + 'nl',
+              'sqlparse.sql.TokenList.token_next', 'sqlparse.sql.TokenList.token_prev', 'sqlparse.sql.TokenList.token_next_by',
+              'sqlparse.sql.TokenList._token_matching', 'sqlparse.sql.TokenList.token_index', 'sqlparse.sql.Token.match',
+              'sqlparse.utils.imt', 'sqlparse.sql.TokenList.get_sublists', 'sqlparse.sql.TokenList.get_identifiers'
+              if False else 'sqlparse.sql.IdentifierList.get_identifiers', 'sqlparse.sql.Case.get_cases'):
+        node = fns.get(q)
+        if node is None:
+            common.structural(rep, 'C06/%s/exists' % q, q, False, {}, undecided_if_false=True)
+            continue
+        ws = [w.as_dict() for w in effects.writes_of(q, node)
+              if not (w.kind == 'mutator-call' and w.base in ('ret', 'result', 'types'))]
+        common.structural(rep, 'C06/%s/query helper: no store, no mutating call (frame)' % q, q, not ws, {'writes': ws})
+
+
 def run(rep):
+    rep.notes.append('layout routines whose sites are not yet under SMT obligations (syntactic inventory + bounded only): '
+                     + ', '.join(NOT_YET))
     return generic.run_generic(
-        rep, [('sqlparse.formatter.validate_options', None)], structural=[site_inventory, stack_mapping],
-        assumptions=['tree-level clause (the filters only insert / remove / blank whitespace tokens) is decided by the '
-                     'syntactic site inventory over the real AST plus the bounded stand-in; per-site SMT obligations over '
-                     'the heap model are not yet generated for the layout filters',
+        rep, [('sqlparse.formatter.validate_options', None)] + SITE_FUNCS,
+        structural=[site_inventory_residual, pure_helpers, stack_mapping],
+        assumptions=['tree-level clause: per-site SMT obligations (every removal / value store / insertion reached on any path '
+                     'of the listed routines concerns a whitespace token) over the heap model; loops are over-approximated '
+                     'by an arbitrary element in a havoc-ed state; calls of sibling layout routines are replaced by "may '
+                     'restructure the lists of its argument" (each routine is verified under its own contract)',
+                     'the routines listed in the notes are covered by a syntactic site inventory and the bounded stand-in only',
                      're-tokenising the output gives the same significant tokens / same number of statements: regex '
                      'semantics, bounded stand-in only'],
         trusted=['CPython re engine', 'str.rstrip'], budget_quick=35.0)
